@@ -6,6 +6,9 @@ ops (t = thread id = one received packet being handled by one goroutine):
   step <t>   next atomic step of t     -> check:ok | check:seen | auth:ok | auth:fail | delivered | update:seen | noop
   full <t>   the real Decrypt / VerifyRelay as one uninterrupted call (thread must not have started)
                                        -> delivered | seen | auth:fail | noop
+  burst <t0> <from> <n>                n authentic direct packets with counters from, from+1, … handled one
+                                       after the other by threads t0, t0+1, … (each an uninterrupted Decrypt)
+                                       -> `delivered=<k>`
   dump                                 -> `<current> <bitmap words hex>`
 Oracle: the list of counters already delivered on this tunnel; delivering one of them again, or
 delivering a packet that does not authenticate, violates the property.
@@ -83,6 +86,35 @@ def step (s : S) (args : List String) (impl : String) : S × Out :=
        { model := out, verdict := deliverVerdict s t impl,
          tag := "full:" ++ out ++ (if dup then ":replay" else "") })
     | _, _ => (s, badOp)
+  | ["burst", t0, from_, n] =>
+    match natArg t0, natArg from_, natArg n, s.m with
+    | some t0, some f, some n, some m =>
+      if f + n > 2 ^ 64 then (s, badOp) else
+      let pk' : Nat → Pkt := fun t =>
+        if t0 ≤ t ∧ t < t0 + n then { ctr := BitVec.ofNat 64 (f + (t - t0)), authOK := true } else s.pk t
+      -- every thread of the burst starts fresh and runs to completion before the next one starts; the
+      -- program counters are folded into one range test afterwards (same function, no closure chain)
+      let start : Nat → PC := fun _ => .start
+      let (acc, k, seen') := (List.range n).foldl (fun (a : State × Nat × List Nat) i =>
+        let (m0, k, seen) := a
+        let t := t0 + i
+        let (m1, r1) := Nebula.Decrypt.step pk' { m0 with pc := start } t
+        let (m2, r2) := if r1 == .checkOK then Nebula.Decrypt.step pk' m1 t else (m1, r1)
+        let (m3, r3) := if r2 == .authOK then Nebula.Decrypt.step pk' m2 t else (m2, r2)
+        if r3 == .delivered then (m3, k + 1, (f + i) :: seen) else (m3, k, seen)) (m, 0, s.seen)
+      let m' : State := { acc with pc := fun t => if t0 ≤ t ∧ t < t0 + n then .done else m.pc t }
+      -- oracle: at most the counters of the burst that were never delivered before may be delivered
+      let fresh := (List.range n).foldl (fun c i => if s.seen.contains (f + i) then c else c + 1) 0
+      let verdict :=
+        match impl.splitOn "=" with
+        | ["delivered", ks] =>
+          match ks.toNat? with
+          | some ki => if ki > fresh then s!"bad delivered-twice burst from={f} n={n} delivered={ki} fresh={fresh}" else "ok"
+          | none => "bad burst-unparsable"
+        | _ => "bad burst-unparsable"
+      ({ s with m := some m', pk := pk', known := fun t => (t0 ≤ t && t < t0 + n) || s.known t, seen := seen' },
+       { model := s!"delivered={k}", verdict := verdict, tag := if k == n then "burst:all" else "burst:some" })
+    | _, _, _, _ => (s, badOp)
   | ["dump"] =>
     match s.m with
     | some m => (s, { model := Bits.dumpStr m.window, tag := "dump" })
